@@ -93,6 +93,15 @@ def generate(rng, tier):
             body += ["CS", str((cb + k) % 64), "CR", "0", "0", "#" + stops[k][1], "CS", "0"]
         body += R.path(rng, verbs=["L", "l"], n=2, adj=0)
         g["gradient-reuse"].append("REN %d %d %d %d " % tuple(rc) + " ".join(body))
+    # SetRasterizer between SetLOD and the path: the height tested is the one in force when the path starts
+    g["retarget-lod"] = []
+    for _ in range(400 if tier == "quick" else 8000):
+        vb = R.viewbox(rng)
+        h1, h2 = rng.choice([8, 24, 48, 64, 100]), rng.choice([8, 24, 47, 48, 49, 64, 100])
+        l0, l1 = rng.choice([(0.0, 48.0), (48.0, 1000.0), (0.0, float(h2)), (float(h2), 1e9), (float(h1), float(h1) + 1), (0.0, float("inf"))])
+        body = ["R"] + vb + ["-", "LOD", C.fh(l0), C.fh(l1), "SR", str(rng.range(-5, 20)), str(rng.range(-5, 20)), str(rng.choice([h2, 16, 64])), str(h2)]
+        body += R.path(rng, verbs=["L", "l"], n=2) + ["SR", "0", "0", str(h1), str(h1)] + R.path(rng, verbs=["L"], n=1)
+        g["retarget-lod"].append("REN 0 0 %d %d " % (h1, h1) + " ".join(body))
     g["second-reset"] = []
     for _ in range(300 if tier == "quick" else 5000):
         vb, rc = R.viewbox(rng), R.rect(rng)
